@@ -53,7 +53,7 @@ for n in (1, 2, 3, 4):
 GROUPS.append(G('C18.O1.sort_n5', 'h_sort', 5, defs=ND, tier='thorough', note='built with the library\'s NDEBUG semantics (cmi_dataset_is_max_heap not run)'))
 for n in (1, 2, 3):
     GROUPS.append(G('C18.O1.ts_sort_n%d' % n, 'h_ts_sort', n))
-GROUPS.append(G('C18.O1.ts_sort_n4', 'h_ts_sort', 4, defs=ND, tier='thorough', note='NDEBUG semantics; did not finish in 300 s in the probes'))
+GROUPS.append(G('C18.O1.ts_sort_n4', 'h_ts_sort', 4, defs=ND, tier='experimental', note='NDEBUG semantics; did not finish in 300 s in the probes'))
 # ---- O2 copy (+ add, summarize of the dataset)
 GROUPS.append(G('C18.O2.copy_ds_n3', 'h_copy_ds', 3, cap=5))
 GROUPS.append(G('C18.O2.copy_ds_n1_full', 'h_copy_ds', 1, cap=1))
@@ -74,16 +74,19 @@ GROUPS.append(G('C18.O3.ds_fivenum_n1', 'h_ds_fivenum', 1, native=('fivenum1',),
 for n in (2, 3):
     GROUPS.append(G('C18.O3.ds_fivenum_n%d' % n, 'h_ds_fivenum', n))
 for n in (4, 5):
-    GROUPS.append(G('C18.O3.ds_fivenum_n%d' % n, 'h_ds_fivenum', n, defs=ND, tier='thorough'))
-for n in (1, 2, 3):
+    GROUPS.append(G('C18.O3.ds_fivenum_n%d' % n, 'h_ds_fivenum', n, defs=ND, tier='experimental'))
+for n in (1, 2):
     GROUPS.append(G('C18.O3.ts_median_n%d' % n, 'h_ts_median', n, native=('tsmedian', 'tsinterp'), finding=F_C + '; ' + F_F))
-GROUPS.append(G('C18.O3.ts_median_n4', 'h_ts_median', 4, defs=ND, tier='thorough', native=('tsmedian', 'tsinterp'), finding=F_C + '; ' + F_F))
+GROUPS.append(G('C18.O3.ts_median_n3', 'h_ts_median', 3, defs=['C18_SMALLVALS'], native=('tsmedian', 'tsinterp'), finding=F_C + '; ' + F_F,
+                note='sample values restricted to integers -128..127 (with every double the midpoint arithmetic does not finish in 240 s)'))
+GROUPS.append(G('C18.O3.ts_median_n4', 'h_ts_median', 4, defs=ND + ['C18_SMALLVALS'], tier='thorough', native=('tsmedian', 'tsinterp'), finding=F_C + '; ' + F_F))
 GROUPS.append(G('C18.O3.ts_median_firstheavy_n2', 'h_ts_median', 2, defs=['C18_CASE_FIRSTHEAVY'], native=('tsmedian',), finding=F_C))
 GROUPS.append(G('C18.O3.ts_median_interval_n2', 'h_ts_median', 2, defs=['C18_CASE_INTERVAL', 'C18_SMALLVALS'], native=('tsinterp',), finding=F_F,
                 note='sample values restricted to integers -128..127 (the range obligation is a float multiply/divide proof)'))
 GROUPS.append(G('C18.O3.ts_median_interval_n3', 'h_ts_median', 3, defs=['C18_CASE_INTERVAL', 'C18_SMALLVALS'], tier='thorough', native=('tsinterp',), finding=F_F))
 for n in (2, 3):
-    GROUPS.append(G('C18.O3.ts_fivenum_n%d' % n, 'h_ts_fivenum', n, native=('tsfivenum',), finding=F_C + '; ' + F_F))
+    GROUPS.append(G('C18.O3.ts_fivenum_n%d' % n, 'h_ts_fivenum', n, defs=['C18_SMALLVALS'], native=('tsfivenum',), finding=F_C + '; ' + F_F,
+                    note='sample values restricted to integers -128..127'))
 # ---- O4 histograms
 SV = ['C18_SMALLVALS']
 HF = ['--conversion-check'] + FP
@@ -99,21 +102,21 @@ GROUPS.append(G('C18.O4.auto_const_n2', 'h_hist_auto', 2, nb=3, defs=['C18_CONST
 GROUPS.append(G('C18.O4.auto_wide_n2', 'h_hist_auto', 2, nb=3, defs=['C18_WIDE'], flags=HF, observer=True, native=('histwide',), finding=F_G,
                 note='sample values are multiples of 2^26 in [-2^33, 2^33)'))
 GROUPS.append(G('C18.O4.ts_auto_n3_b2', 'h_ts_hist_auto', 3, nb=2, defs=SV, flags=HF, observer=True))
-GROUPS.append(G('C18.O4.auto_wide_fullrange_n2', 'h_hist_auto', 2, nb=3, defs=['C18_WIDE', 'C18_FULLVALS'], flags=HF, observer=True, tier='thorough', native=('histwide',), finding=F_G))
+GROUPS.append(G('C18.O4.auto_wide_fullrange_n2', 'h_hist_auto', 2, nb=3, defs=['C18_WIDE', 'C18_FULLVALS'], flags=HF, observer=True, tier='experimental', native=('histwide',), finding=F_G))
 GROUPS.append(G('C18.O4.ts_auto_const_n2', 'h_ts_hist_auto', 2, nb=2, defs=['C18_CONST_DATA'], flags=HF, observer=True, native=('histconst', 'histtrap'), finding=F_D))
 GROUPS.append(G('C18.O4.fill_fullrange_n1_b3', 'h_hist_fill', 1, nb=3, flags=HF, tier='thorough', note='every double: did not finish in 300 s in the probes'))
-GROUPS.append(G('C18.O4.fill_fullrange_n2_b2', 'h_hist_fill', 2, nb=2, flags=HF, tier='thorough', note='every double: did not finish in 300 s in the probes'))
+GROUPS.append(G('C18.O4.fill_fullrange_n2_b2', 'h_hist_fill', 2, nb=2, flags=HF, tier='experimental', note='every double: did not finish in 300 s in the probes'))
 # ---- O6 growth, C14-O3 time-series add / summarize
 GROUPS.append(G('C18.O6.ds_add_first', 'h_ds_add', 0, cap=0))
 GROUPS.append(G('C18.O6.ds_add_grow_k2', 'h_ds_add', 2, cap=2))
 GROUPS.append(G('C18.O6.ds_add_grow_k4', 'h_ds_add', 4, cap=4))
-GROUPS.append(G('C18.O6.ds_add_grow_k1024', 'h_ds_add', 1024, cap=1024, unwind=1030, tier='thorough', note='the real threshold CMI_DATASET_INIT_SZ'))
+GROUPS.append(G('C18.O6.ds_add_grow_k1024', 'h_ds_add', 1024, cap=1024, unwind=1030, tier='experimental', note='the real threshold CMI_DATASET_INIT_SZ'))
 GROUPS.append(G('C14.O3.ts_add_first', 'h_ts_add', 0, cap=0))
 GROUPS.append(G('C14.O3.ts_add_n1', 'h_ts_add', 1, cap=3))
 GROUPS.append(G('C14.O3.ts_add_n2', 'h_ts_add', 2, cap=3))
 GROUPS.append(G('C18.O6.ts_add_grow_k1', 'h_ts_add', 1, cap=1))
 GROUPS.append(G('C18.O6.ts_add_grow_k4', 'h_ts_add', 4, cap=4))
-GROUPS.append(G('C18.O6.ts_add_grow_k1024', 'h_ts_add', 1024, cap=1024, unwind=1030, tier='thorough', note='the real threshold CMI_DATASET_INIT_SZ'))
+GROUPS.append(G('C18.O6.ts_add_grow_k1024', 'h_ts_add', 1024, cap=1024, unwind=1030, tier='experimental', note='the real threshold CMI_DATASET_INIT_SZ'))
 for n in (1, 2, 4):
     GROUPS.append(G('C14.O3.ts_summarize_n%d' % n, 'h_ts_summarize', n, cap=n + 1))
 
@@ -360,7 +363,8 @@ def main(argv):
     groups = []
     ex = futs = None
     if '--no-cbmc' not in argv:
-        specs = [s for s in GROUPS if (thorough or s['tier'] == 'quick') and (not only or only in s['id'])]
+        specs = [s for s in GROUPS if (s['tier'] == 'quick' or (thorough and s['tier'] == 'thorough') or ('--experimental' in argv and s['tier'] == 'experimental'))
+                 and (not only or only in s['id'])]
         # longest first, so that the tail of the schedule is short
         heavy = ('sort_n5', 'ts_sort_n4', 'k1024', 'fullrange', 'sort_n4', 'ts_sort_n3', 'fivenum_n', 'ts_median_n3', 'ts_median_n4', 'interval', 'O4.')
         specs.sort(key=lambda s: min([i for i, h in enumerate(heavy) if h in s['id']] + [99]))
